@@ -2,7 +2,9 @@ package main
 
 import (
 	"fmt"
+	"go/constant"
 	"go/token"
+	"go/types"
 	"strings"
 
 	"golang.org/x/tools/go/ssa"
@@ -852,6 +854,26 @@ func ruleC12(r *Run, p *Program, rule string) {
 	if okLock {
 		r.ok(rule+".lock-file", funcKey(f), p.Pos(f.Pos()), "every success return of Backup passes touchFile(<backup fs>, \"lock\")", true)
 	}
+	// destination files are created empty: O_CREATE and O_TRUNC on the backup file system (a reused directory must not
+	// leave the tail of an older, longer file behind the copied prefix)
+	{
+		oTrunc, oCreate := osFlag(p, "O_TRUNC"), osFlag(p, "O_CREATE")
+		ndst := 0
+		for nd := range w.Reached {
+			fe := fsEventOf(nd)
+			if fe == nil || fe.Iface != "fs.FileSystem" || fe.Method != "OpenFile" || strings.HasSuffix(fe.Recv.Chain, ".opts.FileSystem") {
+				continue
+			}
+			_, fv := resolveParam(nd.Ctx, invokeArg(fe.Call, 1))
+			fl, ok := constInt(strip(fv))
+			if !ok || fl == 0 {
+				continue
+			}
+			ndst++
+			r.check(oTrunc != 0 && fl&oTrunc != 0 && fl&oCreate != 0, rule+".dst-truncated", funcKey(nd.Ctx.Fn)+"->OpenFile(dst)", p.Pos(instrPos(nd.In)), "files in the backup directory are opened with O_CREATE|O_TRUNC", "a file of the backup is opened without O_TRUNC: when the directory already holds a longer file of that name its old tail survives behind the copied prefix and is replayed when the backup is opened")
+		}
+		r.universe(rule+".dst-truncated", ndst, 2)
+	}
 	// source read-only
 	nsrc := 0
 	for nd := range w.Reached {
@@ -945,4 +967,18 @@ func ruleC05StopOnError(r *Run, p *Program, rule string) {
 		}
 		r.check(tested && !again, rule, funcKey(f)+":stop-on-error", p.Pos(c.Pos()), "after a failed compact(seg) no further segment is compacted in this run", "Compact goes on with the remaining (newer) picked segments after compacting an older one failed: the newer segment's delete records are dropped while the older segment still holds the puts, and the deleted keys come back after a crash")
 	}
+}
+
+// osFlag returns the value of os.<name> for the loaded configuration (0 if unknown).
+func osFlag(p *Program, name string) int64 {
+	imp := p.Main.Imports["os"]
+	if imp == nil || imp.Types == nil {
+		return 0
+	}
+	c, ok := imp.Types.Scope().Lookup(name).(*types.Const)
+	if !ok {
+		return 0
+	}
+	v, _ := constant.Int64Val(c.Val())
+	return v
 }
